@@ -130,7 +130,9 @@ class AuthSession(object):
         mechanism_name, mechanism_arg = self._parse_arg(arg)
         mechanism = self.auth.get_server(mechanism_name)
         if mechanism:
-            insecure = getattr(mechanism, 'insecure', False)
+            # pysasl no longer flags its plain-text mechanisms as insecure.
+            insecure = getattr(mechanism, 'insecure',
+                               mechanism.name in (b'PLAIN', b'LOGIN'))
             if insecure and not self.io.encrypted:
                 raise InsecureMechanismError()
             responses = []
